@@ -187,13 +187,37 @@ Proof.
 Qed.
 
 (* ---- which exchanges read back ------------------------------------------------------------------------ *)
-Definition name_ok (n : bytes) : bool := match n with [] => false | _ => forallb is_tchar n end.
-Definition hdr_ok (nv : bytes * list bytes) : bool :=
-  name_ok (fst nv) && forallb is_ascii_b (snd nv).
+(* exactly what Response.EncodeHeader insists on (encode_response_header = Ok _
+   implies it, see Proofs/BundleWriteOk.v): a three-digit status, ASCII names not
+   starting with ':', ASCII comma-joined values, names distinct after case
+   folding.  Names need not be RFC 7230 tokens and may be empty. *)
 Definition xwritable (x : bexchange) : bool :=
   (100 <=? bx_status x)%Z && (bx_status x <=? 999)%Z
-  && forallb hdr_ok (bx_hdr x)
+  && forallb hdr_writable_b (bx_hdr x)
   && nodupb (map (fun nv => lower (fst nv)) (bx_hdr x)).
+
+Lemma hdr_writable_parts (nv : bytes * list bytes) : hdr_writable_b nv = true ->
+  pseudo_name (fst nv) = false /\ is_ascii_b (fst nv) = true /\ is_ascii_b (join_comma (snd nv)) = true.
+Proof.
+  unfold hdr_writable_b. rewrite (match58 (fst nv) true false). intros H.
+  apply andb_true_iff in H. destruct H as [H H3]. apply andb_true_iff in H. destruct H as [H1 H2].
+  destruct (pseudo_name (fst nv)); [discriminate|]. auto.
+Qed.
+
+Lemma lower_byte_ascii (c : N) : c < 128 -> lower_byte c < 128.
+Proof. unfold lower_byte. destruct ((65 <=? c) && (c <=? 90)) eqn:U; lia. Qed.
+
+Lemma lower_ascii (s : bytes) : is_ascii_b s = true -> is_ascii_b (lower s) = true.
+Proof.
+  unfold is_ascii_b, lower. rewrite !forallb_forall. intros H c Hc. apply in_map_iff in Hc.
+  destruct Hc as [c0 [E Hc0]]. subst c. specialize (H c0 Hc0). pose proof (lower_byte_ascii c0). lia.
+Qed.
+
+Lemma lower_not_pseudo (n : bytes) : pseudo_name n = false -> pseudo_name (lower n) = false.
+Proof.
+  destruct n as [|c r]; [reflexivity|]. cbn [lower map pseudo_name]. unfold lower_byte.
+  destruct ((65 <=? c) && (c <=? 90)) eqn:U; lia.
+Qed.
 
 (* what comes back: canonical name, one comma-joined value, in the order of the
    encoded lower-case names *)
@@ -236,12 +260,11 @@ Section OneExchange.
   Lemma xw_status : (100 <= st <= 999)%Z.
   Proof. unfold xwritable in W. fold st in W. lia. Qed.
 
-  Lemma xw_hdrs : Forall (fun nv => name_ok (fst nv) = true /\ forallb is_ascii_b (snd nv) = true) h.
+  Lemma xw_hdrs : Forall (fun nv => hdr_writable_b nv = true) h.
   Proof.
     unfold xwritable in W. fold h in W.
     apply andb_true_iff in W. destruct W as [W1 _]. apply andb_true_iff in W1. destruct W1 as [_ W1].
-    rewrite forallb_forall in W1. apply Forall_forall. intros nv Hnv. specialize (W1 nv Hnv).
-    unfold hdr_ok in W1. apply andb_true_iff in W1. exact W1.
+    rewrite forallb_forall in W1. apply Forall_forall. exact W1.
   Qed.
 
   Lemma xw_nodup : NoDup (map (fun nv => lower (fst nv)) h).
@@ -250,16 +273,11 @@ Section OneExchange.
     apply nodupb_sound. exact W2.
   Qed.
 
-  Lemma name_ok_tchars (n : bytes) : name_ok n = true -> n <> [] /\ forallb is_tchar n = true.
-  Proof. unfold name_ok. destruct n; [discriminate|]. intros H. split; [discriminate|exact H]. Qed.
-
   Lemma folded_regular : Forall (fun f => regular f = true) (map fold_hdr h).
   Proof.
-    apply Forall_map. eapply Forall_impl; [|exact xw_hdrs]. intros [n vs] [Hn _]. cbn [fst] in Hn.
-    apply name_ok_tchars in Hn. destruct Hn as [Hne Ht].
-    unfold regular, fold_hdr, pseudo_name. cbn [fst]. destruct n as [|c r]; [contradiction|].
-    cbn [lower map]. cbn [forallb] in Ht. apply andb_true_iff in Ht. destruct Ht as [Hc _].
-    apply lower_byte_tchar in Hc. apply is_tchar_ascii in Hc. apply negb_true_iff. lia.
+    apply Forall_map. eapply Forall_impl; [|exact xw_hdrs]. intros nv Hw.
+    apply hdr_writable_parts in Hw. destruct Hw as [Hp _].
+    unfold regular, fold_hdr. cbn [fst]. rewrite (lower_not_pseudo _ Hp). reflexivity.
   Qed.
 
   Lemma raw_regular : filter regular (raw_fields st h) = map fold_hdr h.
@@ -311,10 +329,10 @@ Section OneExchange.
       destruct (status_digits st xw_status) as [a [b [c [E [D _]]]]]. rewrite E.
       unfold is_ascii_b. cbn [forallb]. unfold is_digit_n in D. lia.
     - apply in_map_iff in Hf. destruct Hf as [[n vs] [E Hin]]. subst f. unfold fold_hdr. cbn [fst snd].
-      pose proof xw_hdrs as X. rewrite Forall_forall in X. destruct (X _ Hin) as [Hn Hv]. cbn [fst snd] in *.
-      apply name_ok_tchars in Hn. destruct Hn as [_ Ht].
-      split; [apply tchars_ascii, forallb_tchar_lower; exact Ht|].
-      split; [apply join_comma_ascii; exact Hv|apply lower_idem].
+      pose proof xw_hdrs as X. rewrite Forall_forall in X.
+      destruct (hdr_writable_parts _ (X _ Hin)) as [_ [Hn Hv]]. cbn [fst snd] in *.
+      split; [apply lower_ascii; exact Hn|].
+      split; [exact Hv|apply lower_idem].
   Qed.
 
   (* C03, one exchange *)
